@@ -18,6 +18,10 @@
    "Prefix-free" (no key is a proper prefix of another) is *not* needed: the model's location is a
    flat map keyed by the split path, and the theorems hold without it.
 
+   [stage_from s0] is build + the full transfer into a destination that already holds s0
+   ([stage] = [stage_from []]); C02_obj_from / C02_obj_healed cover the store histories "directory
+   object present, file objects absent".
+
    Deviation from DESIGN: transfer(staging -> odb) into an empty odb is folded into [stage] (the
    store it returns is the odb after the transfer); the correspondence compares exactly that store. *)
 From Coq Require Import NArith List Bool Permutation.
@@ -41,6 +45,35 @@ Theorem C02_obj_map : forall (H : bytes -> list N) (path : list N) (t : wtree),
     Permutation f (files t) /\ NoDup (map fst f).
 Proof. exact obj_map_thm. Qed.
 Print Assumptions C02_obj_map.
+
+(* the store step from a destination that is not empty: for ANY initial store s0 such that no two
+   contents in play - those already in s0 included - share an object id (the abstract-digest form of
+   "every object in the store is named by its digest"), build + full transfer (expansion requested:
+   every absent object is delivered, present ones are left alone) + checkout reproduces the files *)
+Theorem C02_obj_from : forall (H : bytes -> list N) (s0 : store) (path : list N) (t : wtree),
+  wf_tree t -> text_tree t -> digest_ok H -> collision_free (s0 ++ in_play H t) ->
+  exists sg, stage_from H s0 path (walk_of (rstrip_sep path) t) = Ok sg /\
+    checkout (sg_store sg) (sg_oid sg) = Ok (sort_by file_leb (files t)).
+Proof. exact obj_from_thm. Qed.
+Print Assumptions C02_obj_from.
+
+(* in particular from any sub-store of the objects in play: the directory object alone (an earlier
+   shallow transfer), or a complete store that lost objects afterwards *)
+Theorem C02_obj_healed : forall (H : bytes -> list N) (s0 : store) (path : list N) (t : wtree),
+  wf_tree t -> text_tree t -> digest_ok H -> collision_free (in_play H t) ->
+  (forall x, In x s0 -> In x (in_play H t)) ->
+  exists sg, stage_from H s0 path (walk_of (rstrip_sep path) t) = Ok sg /\
+    checkout (sg_store sg) (sg_oid sg) = Ok (sort_by file_leb (files t)).
+Proof. exact obj_healed_thm. Qed.
+Print Assumptions C02_obj_healed.
+
+(* what the default shallow transfer leaves in an empty store: the directory object alone *)
+Theorem C02_shallow_store : forall (H : bytes -> list N) (path : list N) (t : wtree),
+  wf_tree t ->
+  shallow_store H [] path (walk_of (rstrip_sep path) t) =
+  Ok [(digestH H (built_tree H t), as_bytes false (built_tree H t))].
+Proof. exact shallow_store_spec. Qed.
+Print Assumptions C02_shallow_store.
 
 (* reloading the directory object yields the listing that was built: same keys, same hashes, in
    relpath order, each entry carrying Meta(md5 = its hash) *)
